@@ -50,7 +50,7 @@ EXTENDS Obs
 Tag(k) == " [content " \o k \o "]"
 
 MonInit(p) ==
-  [ err |-> "", p |-> p, files |-> p.files, base |-> 0, cbase |-> 0, pend |-> <<>>, loose |-> FALSE,
+  [ err |-> "", p |-> p, files |-> p.files, base |-> 0, cbase |-> 0, pend |-> <<>>, loose |-> FALSE, okall |-> {},
     phase |-> "pre", down |-> {}, since |-> 0, quiet |-> 0, resid |-> {}, age |-> 0 ]
 
 NFiles(m) == Len(m.files)
@@ -65,9 +65,18 @@ Sel(q, i, n) ==
 RECURSIVE FoldSel(_, _, _)
 FoldSel(qs, i, n) == IF qs = <<>> THEN i ELSE FoldSel(Tail(qs), Sel(Head(qs), i, n), n)
 Unspecified(q, n) == q.k = "num" /\ ~(q.n >= 1 /\ q.n <= n)
-\* indices a reload may load: the requests of the batch in press order; the last ones may not have been processed yet
-TargetsFrom(m, b) == { FoldSel(SubSeq(m.pend, 1, j), b, NFiles(m)) : j \in 1..Len(m.pend) }
-Targets(m) == TargetsFrom(m, m.base)
+\* A failed attempt is not observable, so between two requests of a batch the selection may have started over from
+\* the file in use b: the indices the requests qs can select
+RECURSIVE SetFold(_, _, _, _)
+SetFold(qs, S, b, n) == IF qs = <<>> THEN S ELSE SetFold(Tail(qs), {Sel(Head(qs), i, n) : i \in S \cup {b}}, b, n)
+\* indices a reload may load: the last requests of the batch may not have been processed yet
+TargetsInUse(m) == UNION { SetFold(SubSeq(m.pend, 1, j), {m.base}, m.base, NFiles(m)) : j \in 1..Len(m.pend) }
+FinalInUse(m) == SetFold(m.pend, {m.base}, m.base, NFiles(m))
+\* the same when every request moves the index whether or not its reload succeeds ("requested")
+TargetsReq(m) == { FoldSel(SubSeq(m.pend, 1, j), m.cbase, NFiles(m)) : j \in 1..Len(m.pend) }
+FinalReq(m) == FoldSel(m.pend, m.cbase, NFiles(m))
+Targets(m) == IF m.p.idxsem = "requested" THEN TargetsReq(m) ELSE TargetsInUse(m)
+ValidNow(m) == {i \in 0..(NFiles(m) - 1) : IsValid(m, m.files[i + 1])}
 
 ReqOf(m, c) == LET I == {i \in DOMAIN m.p.req : m.p.req[i].c = c} IN
                IF I = {} THEN <<>> ELSE <<m.p.req[CHOOSE i \in I : TRUE]>>
@@ -88,23 +97,22 @@ MonIn(m, r) ==
       q == IF r.e = "d" THEN ReqOf(m, r.c) ELSE <<>>
       m2 == IF q = <<>> THEN m1
             ELSE [m1 EXCEPT !.pend = IF Len(@) < 4 THEN @ \o q ELSE @,
-                            !.loose = @ \/ Len(m1.pend) >= 4 \/ Unspecified(q[1], NFiles(m1))]
+                            !.loose = @ \/ Len(m1.pend) >= 4 \/ Unspecified(q[1], NFiles(m1)),
+                            \* files that parse during the whole batch
+                            !.okall = IF m1.pend = <<>> THEN ValidNow(m1) ELSE @]
   IN [m2 EXCEPT !.down = DownAfter(a.out, @), !.since = 0, !.quiet = 0]
 
-MonW(m, r) == [m EXCEPT !.files[r.i + 1] = r.k, !.loose = @ \/ m.pend # <<>>]
+MonW(m, r) == [m EXCEPT !.files[r.i + 1] = r.k, !.okall = IF IsValid(m, r.k) THEN @ ELSE @ \ {r.i}]
 
 IdxStr(i) == ToString(i)
 ReloadMsgs(msgs) == SelectSeq(msgs, LAMBDA x : x[1] = "reload")
-
-\* the base index the requests of the batch are applied to
-BaseOf(m) == IF m.p.idxsem = "requested" THEN m.cbase ELSE m.base
 
 \* the part of F1-F3 that is checked in the iteration in which the configuration was replaced
 ReloadChecks(m, a, down1, since1) ==
   LET rm == ReloadMsgs(a.msgs)
       All == 0..(NFiles(m) - 1)
-      T == IF m.loose THEN All ELSE TargetsFrom(m, BaseOf(m))
-      Tc == IF m.loose THEN All ELSE TargetsFrom(m, m.cbase)
+      T == IF m.loose THEN All ELSE Targets(m)
+      Tc == IF m.loose THEN All ELSE TargetsReq(m)
       \* the file that was loaded: as the notification names it; without one, as the active layer tells
       byMsg == IF rm = <<>> THEN {} ELSE {t \in All : IdxStr(t) = rm[1][2]}
       byLayer == {t \in All : IsValid(m, m.files[t + 1]) /\ m.p.first[m.files[t + 1]] = a.layer}
@@ -164,11 +172,14 @@ MonTick(m, r) ==
             THEN Fail(m1, "F2b: a reload is requested and no output key is down, but it was not carried out in this iteration")
             ELSE IF ~a.lrr /\ a.idle /\ m1.pend # <<>>
             THEN \* every request of the batch has been processed and used up without a successful reload
-                 LET t == FoldSel(m1.pend, BaseOf(m1), NFiles(m1)) IN
-                 IF ~m1.loose /\ IsValid(m1, m1.files[t + 1])
-                 THEN Fail(m1, "F3: the requested file parses but was not applied" \o Tag(m1.files[t + 1]))
-                 ELSE [m1 EXCEPT !.cbase = IF m1.loose THEN @ ELSE FoldSel(m1.pend, @, NFiles(m1)),
-                                 !.pend = <<>>, !.loose = FALSE]
+                 LET fin == IF m1.p.idxsem = "requested" THEN {FinalReq(m1)} ELSE FinalInUse(m1) IN
+                 IF ~m1.loose /\ fin \subseteq m1.okall /\ ~(FinalReq(m1) \in m1.okall)
+                 THEN Fail(m1, "F3x: index selection continued from a file whose reload had failed, not from the file in use: in use "
+                               \o IdxStr(m1.base) \o ", requests select " \o ToString(fin) \o " (parses), nothing was loaded")
+                 ELSE IF ~m1.loose /\ fin \subseteq m1.okall
+                 THEN Fail(m1, "F3: the requested file parses but was not applied: in use " \o IdxStr(m1.base)
+                               \o ", requests select " \o ToString(fin))
+                 ELSE [m1 EXCEPT !.cbase = IF m1.loose THEN @ ELSE FinalReq(m1), !.pend = <<>>, !.loose = FALSE]
             ELSE m1
       \* --- lane C: a freshly started instance of the new configuration
       m2c == IF m2.err # "" \/ m.phase # "sync" THEN m2
